@@ -86,13 +86,14 @@ CLAIMS = {
             "results must be equal.",
             "§6 C06"),
     "C01": ("Layered theorems (coq/Properties/C01.v), no hypotheses on libm or inputs: (1) bytes to lines - the reader never "
-            "panics and has enough fuel for every stream and schedule (C08), errors come only from the reader except the "
-            "recorded class D6; (2) lines to value - every parser of every decoder never panics, the seven simpler decoders "
+            "panics and has enough fuel for every stream and schedule (C08); an Err is always a failure event of the reader "
+            "schedule (T01e: C01_T01e_error_only_from_reader) and a faultless reader never fails "
+            "(C01_faultless_reader_never_fails; D6 was found by T01e and repaired, fe92d4b); (2) lines to value - every parser of every decoder never panics, the seven simpler decoders "
             "and TimingPoints are total outright; (3) the curve NEVER panics for any libm record, fuel, control-point list "
             "(NaN/inf included) and length (stack invariant of the Bezier subdivision, slices, rotate/pop, calculate_length "
             "indices), at both buffer levels; hence decode_hit_objects / decode_beatmap and the byte-level from_bytes yield "
-            "a value, the D6 UnexpectedEof, or OutOfFuel - never a panic (C01_decode_never_panics, "
-            "C01_decode_bytes_never_panics). Termination (T01g): the theta loop runs at most once for atan2 in [-pi,pi]; in "
+            "a value or OutOfFuel - never an Err, never a panic (C01_decode_never_panics, C01_decode_bytes_never_panics, "
+            "C01_decode_bytes_no_error). Termination (T01g): the theta loop runs at most once for atan2 in [-pi,pi]; in "
             "exact arithmetic the Bezier subdivision finishes within 2^(d+1) iterations when the second differences are "
             "bounded by 4^d/2 (the 2^20 fuel covers 4^19/2); PARTIAL for IEEE arithmetic (only flat / equal-point classes); "
             "refuted without a coordinate bound (finding D25: an infinite or overflowing control point never becomes flat - "
@@ -109,7 +110,7 @@ CLAIMS = {
             "outside osu!-mode Catmull sliders and when the Catmull surplus is outweighed by one segment; the residue needs "
             "an f32 rounding analysis (none found in 192M random + exhaustive small grids, probes/C01_negdist/). OPEN: "
             "memory safety of the unsafe blocks (outside the model). Tie to the code: all nine decoders on "
-            "noise, grammar files, mutations, truncations at every length, BOM/UTF-16 variants, large and ill-conditioned "
+            "noise, grammar files, mutations, truncations at every length, BOM/UTF-16 variants, UTF-16LE files cut after the low byte of every line feed, large and ill-conditioned "
             "sliders, clusters of objects within 8 ulps in time, byte-level composed model correspondence, in release, debug (overflow checks) and tracing-feature "
             "builds with a formatting subscriber; 15 s watchdog per input.",
             "§6 C01"),
@@ -117,7 +118,10 @@ CLAIMS = {
             "scalar string; unpaired surrogates become U+FFFD; the hand-written lossy loop of encoding.rs equals a one-pass "
             "lossy_spec automaton for ALL byte lists (never out of fuel; the unchecked prefix always validates) and is "
             "local to the line (lossy (a++[LF]++b) = lossy a ++ [LF] ++ lossy b); the four encodings of a text give the "
-            "same lines for every faultless schedule outside the recorded classes D4/D5/D6 (each refuted with a witness). "
+            "same lines for every faultless schedule outside the recorded classes D4/D5 (each refuted with a witness); a "
+            "clean stream never fails in any encoding (C10_clean_stream_never_fails) and a UTF-16LE stream cut inside a "
+            "line feed decodes as the stream with the complete line feed plus one blank line (C10_odd_tail_decodes; D6 "
+            "repaired, fe92d4b). "
             "Tie to the code: bit-exact correspondence of Encoding::decode, std from_utf8 error positions, decode_utf16, "
             "from_bom and the LineDecoder line stream; oracle: same Beatmap in all four encodings, per-line "
             "from_utf8_lossy / from_utf16_lossy, every scalar value as Title content (thorough).",
@@ -125,18 +129,23 @@ CLAIMS = {
     "C08": ("Unbounded theorems (coq/Properties/C08.v, axiom-free): the BufRead contract as an explicit schedule of chunks, "
             "Interrupted and failures; read_until / read_exact / read_bom / read_line transcribed; for any two faultless "
             "schedules with a good start (first non-empty chunk >= 3 bytes or the whole stream) read_all_lines gives the "
-            "same lines = decode_stream bytes; Interrupted is transparent for all schedules; never a panic, fuel "
-            "sufficient. The unrestricted statement is refuted with a witness (D4: read_bom discards chunks shorter than "
+            "same lines = decode_stream bytes; Interrupted is transparent for all schedules; a faultless delivery never "
+            "yields an Err for any chunking, the D4 class included, and an Err is a Fail event of the schedule "
+            "(C08_faultless_never_fails, C08_error_only_from_schedule); never a panic, fuel sufficient. The unrestricted statement is refuted with a witness (D4: read_bom discards chunks shorter than "
             "3 bytes). Tie to the code: a schedule-driven BufRead under LineDecoder, fixed chunk sizes 1..64, random "
-            "schedules, Interrupted placements; oracle: schedule reader / BufReader capacities 1..16 / from_str / "
-            "from_path / dribbling Read all equal from_bytes.",
+            "schedules, Interrupted placements, UTF-16LE streams cut inside a line feed at every chunk size; oracle: schedule "
+            "reader / BufReader capacities 1..16 / from_str / from_path on a regular file and on a pipe / dribbling Read "
+            "all equal from_bytes.",
             "§6 C08"),
     "C09": ("Unbounded theorems (coq/Properties/C09.v, axiom-free): a hard failure reached by the reader schedule is returned "
-            "(never Done), since the driver reads to EOF; Interrupted transparent; writer side for an arbitrary chunk list: "
+            "(never Done), since the driver reads to EOF; no error is made up (C09_error_only_from_reader); the extra-byte "
+            "read after a UTF-16LE line feed returns a failure, retries Interrupted and treats EOF as end of line "
+            "(C09_extra_byte_*); Interrupted transparent; writer side for an arbitrary chunk list: "
             "any failure or Ok(0) before everything is accepted yields the error (WriteZero for Ok(0)), no write is issued "
             "after the first failure, the accepted bytes are a prefix, short writes and Interrupted are retried, flush "
             "failure returned, never a panic. Tie to the code: error of each of 5 kinds at every byte offset of bundled "
-            "files under the schedule reader; Beatmap::encode into a schedule Write with failure / zero-length / short "
+            "files under the schedule reader, the reader failing / interrupted / ending exactly at the byte after 0x0A; "
+            "Beatmap::encode (bundled, generated and a compact all-kinds map in four modes) into a schedule Write with failure / zero-length / short "
             "writes at every output offset, the recorded chunk sequence replayed through the model.",
             "§6 C09"),
     "C15": ("Unbounded theorems (coq/Properties/C15.v), for ANY curve-distance function: the processed object list carries the "
@@ -152,9 +161,12 @@ CLAIMS = {
             "decoder models on the same files.",
             "§6 C15"),
     "C16": ("PARTIAL. Proved (coq/Properties/C16.v, all inputs, IEEE arithmetic): complete case analysis of calculate_length "
-            "- no requested length => natural cumulative lengths; requested L: within epsilon => natural (deviation D9 when "
-            "different), last two points equal and L longer => natural plus one repeated entry, single vertex => [0], "
-            "otherwise the last cumulative length IS L (the very same value), sizes agree, first length 0, the path is a "
+            "- no requested length => natural cumulative lengths; requested L: the filter compares exactly (|calc - L| > 0.0), "
+            "so the natural curve is kept only when L IS the natural length or the difference is NaN; for every L > 0 (+inf "
+            "included) with a non-NaN calculated length the last cumulative length IS L (the very same value, no epsilon "
+            "window: C16_distance_is_L, C16_distance_is_L_zero_seed, C16_curve_distance_is_L) with only the structural "
+            "exceptions: last two points equal and L longer => natural plus one repeated entry, single vertex => [0] (D9, "
+            "the 2.2e-16 window, was found here and repaired, 0477e58; the formerly failing inputs are Examples); sizes agree, first length 0, the path is a "
             "prefix of the natural path plus the adjusted end point, cut index characterised; over the reals the osu!-mode "
             "Catmull simplification keeps kept-length + surplus = full polyline length with a non-negative surplus (T16c, "
             "on the same loop as the model). T16d in IEEE arithmetic with seed 0 (every mode but osu!-Catmull): cumulative "
@@ -285,7 +297,7 @@ def main():
             "enable": "harness/Cargo.toml depends on rosu-map with features=[\"verif-hooks\"]",
             "baseline_off_cmd": "cd /repo && cargo test --workspace --no-fail-fast --offline",
             "source_commits": ["f0db42e"],
-            "fix_commits": ["9215ca2", "26f4d98", "738fe2f", "4262585", "d78b06a"],
+            "fix_commits": ["9215ca2", "26f4d98", "738fe2f", "4262585", "d78b06a", "fe92d4b", "0477e58"],
             "add_only": True,
         },
         "engines": [{
